@@ -6,7 +6,7 @@
 cd "$(dirname "$0")"
 mkdir -p gen ../../build/include/rkcommon ../../build/C07
 python3 ../../lib/mkversion.py >/dev/null 2>&1
-ONLY='^(clamp__(f_f_f|i_i_i)$|cvt_uint32__|deg2rad__f$|divRoundUp__|lerp__f_f_f$|linear_to_srgb|madd__f_f_f$|rcp__f$|rcp_safe__f$|rsqrt__f$|sign__f$|utility_makeRandomColor__u$|pcg_detail_xsh_rr_mixin_output__ul$|pcg_extras_rotr__u_uc$|pcg_detail_specific_stream_mk__ul$|pcg_detail_default_multiplier_multiplier___4$)'
+ONLY='^(clamp__(f_f_f|i_i_i|d_d_d)$|cvt_uint32__|deg2rad__(f|d)$|divRoundUp__|lerp__f_(f_f|d_d)$|linear_to_srgb|madd__(f_f_f|d_d_d)$|rcp__(f|d)$|rcp_safe__(f|d)$|rsqrt__(f|d)$|sign__f$|utility_makeRandomColor__u$|pcg_detail_xsh_rr_mixin_output__ul$|pcg_extras_rotr__u_uc$|pcg_detail_specific_stream_mk__ul$|pcg_detail_default_multiplier_multiplier___4$)'
 python3 ../../tools/cxx2coq/cxx2coq.py ../../tools/cxx2coq/inst/scalar.cpp gen/GenMath.v.new --repo "${VERIF_REPO:-/repo}" \
   -D RKCOMMON_NO_SIMD --filter2 pcg_ --only "$ONLY" \
   && { cmp -s gen/GenMath.v.new gen/GenMath.v || mv gen/GenMath.v.new gen/GenMath.v; rm -f gen/GenMath.v.new; }
